@@ -71,9 +71,12 @@ if keep and valid:
         old_checks = old.get("checks", {})
         old_checks.update(results)
         meta["checks"] = old_checks
-        for k in ("needs_to_manifest", "summary"):
+        for k in ("needs_to_manifest", "summary", "source", "domain_note"):
             if k in old:
                 meta[k] = old[k]
     json.dump(meta, open(mp, "w"), indent=1)
 shutil.rmtree(d, ignore_errors=True)
+import hashlib, glob
+for bd in glob.glob(os.path.join(VERIF, "build", "*_scratch_" + hashlib.sha1(d.encode()).hexdigest()[:8])):
+    shutil.rmtree(bd, ignore_errors=True)          # binaries built against the scratch copy
 sys.exit(0 if valid else 4)
